@@ -27,7 +27,7 @@ EmitNav == \E ss \in UNION {[1..k -> NavSteps] : k \in 0..MaxSteps} : Out(Sel(<<
 EmitFilter ==
   \/ \E f \in FilterSteps : Out(Sel(<<Root, f>>, doc, NoArg))
   \/ \E f \in FilterSteps, s \in {BrW, Dot(ka), DotW} : Out(Sel(<<Root, s, f>>, doc, NoArg))
-  \/ \E f \in FilterSteps, s \in {BrW, Dot(ka), Dot(kb), Idx(<<AiI(IxN(0))>>)} : Out(Sel(<<Root, BrW, f, s>>, doc, NoArg))
+  \/ \E f \in FilterSteps, s \in {BrW, Dot(ka), Dot(kb), Dot(kab), Idx(<<AiI(IxN(0))>>)} : Out(Sel(<<Root, BrW, f, s>>, doc, NoArg))
   \/ \E f \in {FilterSt(c1), FilterSt(c2)}, g \in {FilterSt(c3), FilterSt(EExists(<<Cur, Dot(kb)>>))} : Out(Sel(<<Root, BrW, f, g>>, doc, NoArg))
 EmitPred ==
   \/ \E e \in {EBin(op, EPaths(l), EVal(v)) : op \in {"eq", "gt", "ne"}, l \in {<<Root>>, <<Root, Dot(ka)>>, <<Root, BrW, Dot(ka)>>, <<Root, BrW>>},
@@ -42,6 +42,8 @@ EmitPre ==
   \E ss \in {<<BrW>>, <<Dot(ka)>>, <<BrW, FilterSt(c1)>>, <<Idx(<<AiS(IxN(0), IxL(0))>>)>>, <<DotW>>, <<>>} :
      \/ Out(Sel(<<Root>> \o ss, doc, [pre |-> <<32, 0, 0, 0, 64, 0, 0, 0>>, preoffs |-> <<8>>]))
      \/ Out(Sel(<<Root>> \o ss, doc, [pre |-> <<9, 9, 9>>, preoffs |-> <<>>]))
+     \* an earlier selection (one offset) followed by an earlier predicate result (no offset)
+     \/ Out(Sel(<<Root>> \o ss, doc, [pre |-> <<32, 0, 0, 0, 0, 0, 0, 0, 32, 0, 0, 0, 64, 0, 0, 0>>, preoffs |-> <<8>>]))
      \/ Out(Sel(<<Pred(EExists(<<Root>> \o ss))>>, doc, [pre |-> <<9, 9, 9>>, preoffs |-> <<3>>]))
 
 Emit ==
